@@ -1008,8 +1008,8 @@ Section Rehash.
 
   (* the property in its negative form: no error of the model is reachable, in particular
      neither undefined behaviour nor exhaustion of the loop bound the code relies on *)
-  Corollary rehash_in_place_never_fails t err : SafeWF B T t -> mask t <> 0 ->
-    rehash_in_place B T needs_drop hasher true t <> Fail err.
+  Corollary rehash_in_place_never_fails t (er : err) : SafeWF B T t -> mask t <> 0 ->
+    rehash_in_place B T needs_drop hasher true t <> Fail er.
   Proof.
     intros H Hm. destruct (rehash_in_place_safe t H Hm) as (t' & evs & unw & E & _).
     rewrite E. discriminate.
